@@ -132,7 +132,10 @@ def replay(d):
             dat.write('m1.dat', mesh, **kw)
             dat2 = T.t2data('m1.dat', mesh)
             compare(cmp, dat, dat2, shape)
-            dat2.write('m2.dat', 'MESH2' if mesh else '', **kw)
+            if shape.get('xp'):
+                if list(dat2.extra_precision) != list(dat.extra_precision): cmp.problems.append('xp-state: extra-precision sections %r read back as %r' % (dat.extra_precision, dat2.extra_precision))
+                if bool(dat2.echo_extra_precision) != bool(dat.echo_extra_precision): cmp.problems.append('xp-state: echo flag %r read back as %r' % (dat.echo_extra_precision, dat2.echo_extra_precision))
+            dat2.write('m2.dat', 'MESH2' if mesh else '')
             if stripped('m1.dat') != stripped('m2.dat'):
                 diff = [(i, a, b) for i, (a, b) in enumerate(zip(stripped('m1.dat'), stripped('m2.dat'))) if a != b][:2]
                 cmp.problems.append('rewrite: second data file differs from the first: %r' % (diff or 'length',))
@@ -141,7 +144,7 @@ def replay(d):
             if shape.get('cycles', 3) >= 3:
                 dat3 = T.t2data('m2.dat', 'MESH2' if mesh else '')
                 compare(cmp, dat2, dat3, shape, exact=True, where='cycle2 ')
-                dat3.write('m3.dat', 'MESH3' if mesh else '', **kw)
+                dat3.write('m3.dat', 'MESH3' if mesh else '')
                 if open('m2.dat').read() != open('m3.dat').read(): cmp.problems.append('cycle: third data file differs from the second')
                 if mesh and open('MESH2').read() != open('MESH3').read(): cmp.problems.append('cycle-mesh: third MESH file differs')
         except Exception as ex:
